@@ -141,6 +141,7 @@ type Ctx struct {
 	expired  atomic.Bool
 	maxKeep  int
 	keepSig  map[string]int
+	trace    *os.File // see traceCase
 }
 
 // Mine reports whether case index i belongs to this worker (and was not
@@ -159,6 +160,9 @@ func (c *Ctx) Case(idx int64, descr func() json.RawMessage) {
 	c.curIdx.Store(idx)
 	c.ticks.Add(1)
 	c.active.Store(true)
+	if c.trace != nil {
+		c.traceCase(idx, descr)
+	}
 }
 
 // CaseIdx is the allocation-free heartbeat for enumerations whose cases can be
@@ -167,6 +171,29 @@ func (c *Ctx) CaseIdx(idx int64) {
 	c.curIdx.Store(idx)
 	c.ticks.Add(1)
 	c.active.Store(true)
+	if c.trace != nil {
+		c.traceCase(idx, nil)
+	}
+}
+
+// traceCase (only in the re-run of a shard whose worker died without a result): the case
+// about to run is written to a file first, so that the parent can name the case that
+// killed the process (a fatal runtime error cannot be recovered).
+func (c *Ctx) traceCase(idx int64, descr func() json.RawMessage) {
+	var d json.RawMessage
+	func() {
+		defer func() { recover() }()
+		if descr != nil {
+			d = descr()
+		} else if cc := c.cur.Load(); cc != nil && cc.idx == idx && cc.descr != nil {
+			d = cc.descr()
+		} else if c.Describe != nil {
+			d = c.Describe(idx)
+		}
+	}()
+	b, _ := json.Marshal(map[string]any{"idx": idx, "case": d})
+	_ = c.trace.Truncate(0)
+	_, _ = c.trace.WriteAt(b, 0)
 }
 
 // Idle tells the watchdog that no case is in flight (e.g. while merging).
@@ -304,7 +331,13 @@ func RunWorker(ch *Check, tier string, seed int64, shard, nshards int, resume, u
 	if ch.Budget != nil {
 		c.deadline = time.Now().Add(ch.Budget(tier))
 	}
+	if tp := os.Getenv("VERIF_TRACE_CASES"); tp != "" {
+		c.trace, _ = os.OpenFile(tp, os.O_CREATE|os.O_RDWR|os.O_TRUNC, 0o644)
+	}
 	debug.SetMemoryLimit(memLimit)
+	// a runaway recursion of the code under test must end this worker quickly (a "fatal
+	// error: stack overflow" cannot be recovered): do not let it eat 1 GB per worker first
+	debug.SetMaxStack(256 << 20)
 	write := func() {
 		c.mu.Lock()
 		b, _ := json.Marshal(c.res)
@@ -370,6 +403,7 @@ func RunReplay(ch *Check, tier string, file string) int {
 		fmt.Println("replay: bad file", err)
 		return 2
 	}
+	debug.SetMaxStack(256 << 20)
 	if f.Hist != nil {
 		return runHistReplay(ch, &f)
 	}
